@@ -8,6 +8,8 @@ import Model.Files
 import Model.Params
 import Proofs.Files
 import Proofs.Params
+import Model.ResultsObj
+import Proofs.ResultsObj
 
 namespace C14
 
@@ -334,6 +336,147 @@ theorem pickle_rederive {ρ δ β} (stats : ρ → δ) (dump : Stored ρ δ → 
     loaded.latexFile = s.latexFile ∧ loaded.f12File = s.f12File := by
   simp [writePickle, loadPickle, recalc, hpickle]
 
+/-! ## the results object: what is stored, what is recomputed, which report needs what -/
+
+section ResultsObject
+open ResObj
+
+/-- **`_calculate_stats` changes nothing when applied again**: the object it returns is a fixed
+point (it computes from the raw attributes only, and leaves them alone). -/
+theorem stats_idempotent {V} (F : Attr → Obj V → Option V) (o o' : Obj V)
+    (h : calcStats F o = .ok o') : calcStats F o' = .ok o' :=
+  fixed_of_calcStats F o o' h
+
+/-- **Save / load round trip for every kind of results object.**  Whatever the constructor was
+given (with or without hessian, gradient, bootstrap sample, null / initial log likelihood, user
+notes; any number of parameters), whatever report files were written before (`ws`): the object
+rebuilt by `bioResults(pickle_file=…)` from the file written by `write_pickle` has exactly the
+attributes of the saved object — the same ones missing, the same ones `None`, the same values —
+given only that pickle returns what it was given. -/
+theorem results_roundtrip {V β} (F : Attr → Obj V → Option V) (dump : Obj V → β) (load : β → Obj V)
+    (hpickle : ∀ o, load (dump o) = o) (c : Ctor V) (r : Obj V) (hb : build F c = .ok r)
+    (ws : List (FileAttr × V)) (file : V) :
+    ResObj.loadPickle F load (ResObj.writePickle dump (record r ws) file).2
+      = .ok (ResObj.writePickle dump (record r ws) file).1 := by
+  simp only [ResObj.writePickle, ResObj.loadPickle, hpickle]
+  exact fixed_set_file F _ .pickle _ (fixed_record F ws r (fixed_of_calcStats F _ r hb))
+
+/-- hence every report, printed form and statistic — anything computed from the object — is the
+same for the loaded object as for the saved one: the same text, or the same error. -/
+theorem every_view_same {V β γ} (F : Attr → Obj V → Option V) (dump : Obj V → β) (load : β → Obj V)
+    (hpickle : ∀ o, load (dump o) = o) (c : Ctor V) (r : Obj V) (hb : build F c = .ok r)
+    (ws : List (FileAttr × V)) (file : V) (view : Obj V → γ) :
+    ∃ loaded, ResObj.loadPickle F load (ResObj.writePickle dump (record r ws) file).2 = .ok loaded ∧
+      view loaded = view (ResObj.writePickle dump (record r ws) file).1 :=
+  ⟨_, results_roundtrip F dump load hpickle c r hb ws file, rfl⟩
+
+/-- the constructor accepts every combination of optional inputs but a hessian without BHHH matrix
+(so the round trip theorem speaks about all these kinds of objects) -/
+theorem build_ok_iff {V} (F : Attr → Obj V → Option V) (c : Ctor V) :
+    (∃ r, build F c = .ok r) ↔ (c.H = true → c.bhhh = true) := by
+  rcases c with ⟨vals, un, il, nl, g, h, b, bs, k⟩
+  cases h <;> cases b <;> cases bs <;> cases il <;> cases nl <;>
+    simp [build, calcStats, construct, needed, opt, Slot.isAbsent, Slot.isVal, kindOf]
+
+/-- **Not every statistic is recomputed on load.**  For results without second derivatives
+(`quick_estimate`) `_calculate_stats` does not assign `secondOrderTable`: the `None` the
+constructor put there must come back from the file.  A pickle that drops what `_calculate_stats`
+assigns loads into an object where the attribute is missing … -/
+theorem dropping_statistics_loses_information {V} (F : Attr → Obj V → Option V) (c : Ctor V)
+    (hH : c.H = false) (file : V) :
+    ∃ r o', build F c = .ok r ∧
+      ResObj.loadPickle F id (dropDerived (ResObj.set r Attr.pickleFileName (.val file))) = .ok o' ∧
+      r Attr.secondOrderTable = .none ∧ o' Attr.secondOrderTable = .absent := by
+  rcases c with ⟨vals, un, il, nl, g, h, b, bs, k⟩
+  subst hH
+  refine ⟨calcCore F (construct ⟨vals, un, il, nl, g, false, b, bs, k⟩),
+    calcCore F (dropDerived (ResObj.set (calcCore F (construct ⟨vals, un, il, nl, g, false, b, bs, k⟩))
+    Attr.pickleFileName (.val file))), ?_, ?_, rfl, rfl⟩
+  · rw [build, calcStats_eq]
+    have : pre (construct (V := V) ⟨vals, un, il, nl, g, false, b, bs, k⟩) = .ok () := by
+      cases il <;> cases nl <;> cases bs <;> rfl
+    rw [this]; rfl
+  · rw [ResObj.loadPickle, id, calcStats_eq]
+    have : pre (dropDerived (ResObj.set (calcCore F (construct (V := V) ⟨vals, un, il, nl, g, false, b, bs, k⟩))
+        Attr.pickleFileName (.val file))) = .ok () := by
+      cases il <;> cases nl <;> cases bs <;> rfl
+    rw [this]; rfl
+
+/-- … and the printed form, which reads it, raises AttributeError for the loaded object although
+it is produced for the saved one. -/
+theorem printed_form_needs_secondOrderTable {V} (o : Obj V) (k : Nat)
+    (h : o Attr.secondOrderTable = .absent) (hok : ∀ a, a ≠ Attr.secondOrderTable → (o a).isVal = true) :
+    runView o k strView = .error .attributeError := by
+  have e : ∀ a, a ≠ Attr.secondOrderTable → ∃ v, o a = .val v := by
+    intro a ha
+    have := hok a ha
+    cases hv : o a <;> simp [hv, Slot.isVal] at this
+    exact ⟨_, rfl⟩
+  obtain ⟨_, h1⟩ := e Attr.modelName (by decide)
+  obtain ⟨_, h2⟩ := e Attr.htmlFileName (by decide)
+  obtain ⟨_, h3⟩ := e Attr.latexFileName (by decide)
+  obtain ⟨_, h4⟩ := e Attr.nparam (by decide)
+  obtain ⟨_, h5⟩ := e Attr.sampleSize (by decide)
+  obtain ⟨_, h6⟩ := e Attr.numberOfObservations (by decide)
+  obtain ⟨_, h7⟩ := e Attr.excludedData (by decide)
+  obtain ⟨_, h8⟩ := e Attr.nullLogLike (by decide)
+  obtain ⟨_, h9⟩ := e Attr.initLogLike (by decide)
+  obtain ⟨_, h10⟩ := e Attr.logLike (by decide)
+  obtain ⟨_, h11⟩ := e Attr.likelihoodRatioTestNull (by decide)
+  obtain ⟨_, h12⟩ := e Attr.rhoSquareNull (by decide)
+  obtain ⟨_, h13⟩ := e Attr.rhoBarSquareNull (by decide)
+  obtain ⟨_, h14⟩ := e Attr.likelihoodRatioTest (by decide)
+  obtain ⟨_, h15⟩ := e Attr.rhoSquare (by decide)
+  obtain ⟨_, h16⟩ := e Attr.rhoBarSquare (by decide)
+  obtain ⟨_, h17⟩ := e Attr.akaike (by decide)
+  obtain ⟨_, h18⟩ := e Attr.bayesian (by decide)
+  obtain ⟨_, h19⟩ := e Attr.gradientNorm (by decide)
+  obtain ⟨_, h20⟩ := e Attr.betas (by decide)
+  obtain ⟨_, h21⟩ := e Attr.betaStats (by decide)
+  obtain ⟨_, h22⟩ := e Attr.betaBootStats (by decide)
+  simp [runView, strView, req, reqIf, guardsHold, readOne, h, h1, h2, h3, h4, h5, h6, h7, h8, h9, h10, h11,
+    h12, h13, h14, h15, h16, h17, h18, h19, h20, h21, h22]
+
+/-- the object built from the constructor data when every statistic has a value (no division by a
+zero log likelihood) -/
+def builtObj {V} (G : Attr → Obj V → V) (c : Ctor V) : Obj V :=
+  calcCore (fun a o => some (G a o)) (construct c)
+
+/-- **The printed form and the short summary exist for every kind of results object.** -/
+theorem printed_form_total {V} (G : Attr → Obj V → V) (c : Ctor V) :
+    runView (builtObj G c) c.k strView = .ok () ∧ runView (builtObj G c) c.k shortSummaryView = .ok () := by
+  rcases c with ⟨vals, un, il, nl, g, h, b, bs, k⟩
+  constructor <;>
+  cases un <;> cases il <;> cases nl <;> cases g <;> cases h <;> cases bs <;> rfl
+
+/-- **The HTML report needs the second derivatives** (known finding FC14-4: AttributeError on
+`smallestEigenValue` for the results of `quick_estimate`); with them it is produced whatever else
+is missing. -/
+theorem html_iff_second_derivatives {V} (G : Attr → Obj V → V) (c : Ctor V) :
+    runView (builtObj G c) c.k htmlView = if c.H then .ok () else .error .attributeError := by
+  rcases c with ⟨vals, un, il, nl, g, h, b, bs, k⟩
+  cases un <;> cases il <;> cases nl <;> cases g <;> cases h <;> cases bs <;> rfl
+
+/-- **The LaTeX report** formats every general statistic: TypeError without gradient or initial log
+likelihood; AttributeError (`secondOrderTable` is `None`) without second derivatives. -/
+theorem latex_outcome {V} (G : Attr → Obj V → V) (c : Ctor V) :
+    runView (builtObj G c) c.k latexView =
+      if c.initLogLike && c.g then (if c.H then .ok () else .error .attributeError) else .error .typeError := by
+  rcases c with ⟨vals, un, il, nl, g, h, b, bs, k⟩
+  cases un <;> cases il <;> cases nl <;> cases g <;> cases h <;> cases bs <;> rfl
+
+/-- **The F12 report** reads the correlations for each pair of parameters: it needs the second
+derivatives exactly when there are at least two parameters. -/
+theorem f12_outcome {V} (G : Attr → Obj V → V) (c : Ctor V) :
+    runView (builtObj G c) c.k f12View = if c.H || decide (c.k < 2) then .ok () else .error .typeError := by
+  rcases c with ⟨vals, un, il, nl, g, h, b, bs, k⟩
+  by_cases hk : k < 2 <;>
+  cases un <;> cases il <;> cases nl <;> cases g <;> cases h <;> cases bs <;>
+    simp [runView, f12View, generalView, estimatedView, req, reqIf, guardsHold, readOne, builtObj, calcCore,
+      construct, kindOf, opt, Slot.isVal, Slot.ofOption, hk]
+
+end ResultsObject
+
 /-! ## non-vacuity -/
 
 /-- a directory with gaps: `m.html`, `m~00.html`, `m~02.html` exist → `m~01.html` -/
@@ -377,5 +520,36 @@ example :
                             ⟨"A", "y", .str, .s "TR-BFGS", ["check_algo_name"]⟩]
     importDocument ["TR-BFGS"] (ps.map fun e => { e with value := .i 0 }) (generateDocument ps) = .ok ps := by
   decide
+
+/-- a results object without second derivatives but with a bootstrap sample (quick estimation after
+an estimation with bootstrap), two report files written, saved and loaded: same object -/
+example :
+    let c : ResObj.Ctor String := ⟨fun a => a.name, true, true, false, false, false, false, true, 1⟩
+    let F : ResObj.Attr → ResObj.Obj String → Option String := fun a _ => some a.name
+    ∃ r, ResObj.build F c = .ok r ∧ r ResObj.Attr.secondOrderTable = .none ∧
+      r ResObj.Attr.bootstrap_time = .val "bootstrap_time" ∧ r ResObj.Attr.varCovar = .absent ∧
+      ResObj.runView r 1 ResObj.f12View = .ok () ∧ ResObj.runView r 1 ResObj.htmlView = .error .attributeError :=
+  ⟨_, rfl, rfl, rfl, rfl, rfl, rfl⟩
+
+/-- the hypotheses of `printed_form_needs_secondOrderTable` describe an object that exists -/
+example : ∃ o : ResObj.Obj Unit, o ResObj.Attr.secondOrderTable = .absent ∧
+    (∀ a, a ≠ ResObj.Attr.secondOrderTable → (o a).isVal = true) ∧
+    ResObj.runView o 3 ResObj.strView = .error .attributeError :=
+  ⟨fun a => if a = ResObj.Attr.secondOrderTable then .absent else .val (), rfl,
+    fun a h => by simp [h, ResObj.Slot.isVal], by decide⟩
+
+/-- `stats_idempotent` / `results_roundtrip` on a complete results object with two report files:
+the loaded object is the saved one -/
+example :
+    let c : ResObj.Ctor String := ⟨fun a => a.name, false, true, true, true, true, true, false, 3⟩
+    let F : ResObj.Attr → ResObj.Obj String → Option String := fun a _ => some a.name
+    ∃ r, ResObj.build F c = .ok r ∧
+      (ResObj.allAttrs.all fun a =>
+        match ResObj.loadPickle F id (ResObj.writePickle id (ResObj.record r [(.html, "m.html"), (.f12, "m.F12")]) "m.pickle").2 with
+        | .ok o => o a == (ResObj.writePickle id (ResObj.record r [(.html, "m.html"), (.f12, "m.F12")]) "m.pickle").1 a
+        | .error _ => false) = true :=
+  ⟨_, rfl, by decide⟩
+
+example : (ResObj.views.map (·.1)).length = 12 ∧ ResObj.allAttrs.length = 57 ∧ ResObj.allAttrs.Nodup := by decide
 
 end C14
